@@ -139,7 +139,26 @@ def cases(tier, rng):
             ev += ["q", "ds %d" % nq, "dc %d" % na, "dc %d" % na]; nq += 1; na += 1
         ev.append("pump %d 20 0 0" % side)
         cs.append(mk(c0, s0, ev, True, 2, k, "long-wrap"))
+    # an old query replayed when it is more than 128 packets stale, then more than 65 536 further packets the same way: the stale
+    # payload must not come back when the sequence numbers reach its number again
+    for side in ((0, 1) if thorough else (rng.below(2),)):
+        c0, s0 = rng.range(0, 60000), rng.range(0, 60000)      # (no wrap between the stale packet and its replay)
+        ev = ["pump %d 200 3 5" % side, ("ds 10" if side == 0 else "dc 10"), ("ds 10" if side == 0 else "dc 10"),
+              "pump %d 65700 3 9" % side, "pump %d 20 0 0" % side]
+        cs.append(mk(c0, s0, ev, False, 2, 65900, "stale-then-wrap"))
     cs += l2_cases(rng, 300 if thorough else 40)
+    # an outage that outlasts one write's whole retry ladder (every query lost, every answer lost, or the network down), then a
+    # recovered path: what the failed write had accepted still arrives, and the following writes go through
+    for kind in ("qlost", "alost", "neterr"):
+        for n in ((5, 6, 8, 12) if thorough else (6, 12)):
+            for side in ("cw", "sw"):
+                d1 = bytes(range(10, 10 + 24))
+                d2 = bytes(range(60, 60 + 9))
+                ops = ["%s %s" % (side, hx(d1)), "settle 600", "%s %s" % (side, hx(d2)), "%s %s" % ("sw" if side == "cw" else "cw", hx(b"\x07\x08")), "%s %s" % (side, hx(b"\x63"))]
+                fates = [kind] * (n if kind != "neterr" else 1 + n // 6)
+                line = "c07l2 %d %d fates %d %s %s" % (start(rng), start(rng), len(fates), " ".join(fates), " ".join(ops))
+                cs.append({"line": line, "model": False, "key": line,
+                           "tags": {"src": "l2-outage", "recent": True, "faults": len(fates), "writes": len(ops), "len": len(ops) + len(fates), "burst": True}})
     # the wrap at connection level: server out-queue starts just below the wrap
     cs.append({"line": "c07l2 65500 65500 fates 0 " + " ".join("sw %s cw %s" % (hx(bytes([i % 251] * 3)), hx(bytes([(i + 7) % 251] * 2))) for i in range(60)),
                "model": False, "key": "l2-wrap", "tags": {"src": "l2-connection", "recent": True, "faults": 0, "writes": 120, "len": 120}})
@@ -192,6 +211,8 @@ def oracle_l2(case, impl):
         return [("l2-handshake", "handshake over a transparent path failed: " + impl[:100])]
     toks = case["line"].split()
     ops = toks[toks.index("fates") + 1 + int(toks[toks.index("fates") + 1]) + 1:]
+    # (a `settle <ms>` operation produces no observation)
+    ops = [x for j in range(0, len(ops), 2) if ops[j] != "settle" for x in ops[j:j + 2]]
     acc = {"cw": b"", "sw": b""}
     out = []
     i = 2
